@@ -144,7 +144,7 @@ func C04(r *Run) {
 			}
 			style := ""
 			if g.P(0.3) {
-				style = g.Pick([]string{"flow", "anchors", "merge", "dotted", "inline", "docstart", "plus"})
+				style = g.Pick([]string{"flow", "anchors", "merge", "dotted", "inline", "docstart", "plus", "crlf", "sepcomment"})
 			}
 			if _, has := base["vers"]; has && g.P(0.6) {
 				style = "plainkeys"
@@ -218,5 +218,5 @@ func C04(r *Run) {
 	_ = tv.Equal
 	_ = fmt.Sprint
 	finishEvalFamily(r, "C04", st, sessions, []string{"FormatFree (every assignment equals the all-JSON writing)"},
-		"model: a numeric base layer x 20 upper layers ($match / $delete patterns with 32-bit-overflowing, 64-bit and float ids, same-value overrides of ints, floats, extremes and denormals, $repeat, document-level $match on numbers) x 3 third layers under ALL 3^n assignments of json/yaml/toml, each run through the real bkl; driver: random numeric layer sets (1-3 layers, 1-2 documents) under all 3^n assignments, a third of them in a style variant (YAML flow, anchors/aliases, merge keys, number-like keys written plain; TOML dotted keys, inline tables, +++ separators) that the independent decoder confirms to mean the same tree; TLC validates every run against the format-free RunLayers")
+		"model: a numeric base layer x 20 upper layers ($match / $delete patterns with 32-bit-overflowing, 64-bit and float ids, same-value overrides of ints, floats, extremes and denormals, $repeat, document-level $match on numbers) x 3 third layers under ALL 3^n assignments of json/yaml/toml, each run through the real bkl; driver: random numeric layer sets (1-3 layers, 1-2 documents) under all 3^n assignments, a third of them in a style variant (YAML flow, anchors/aliases, merge keys, number-like keys written plain, document markers with comments; TOML dotted keys, inline tables, +++ separators; CRLF line endings in every format) that the independent decoder confirms to mean the same tree; TLC validates every run against the format-free RunLayers")
 }
